@@ -5,10 +5,12 @@
    depends only on that document's postings) are explicit premises, quantified over a predicate good_posts that every
    postings table in the pool satisfies.  Both are PROVED for every indexed corpus (View/View_Phrase3.v,
    View/Purity_Indexed2.v), which gives the premise-free statements at the end of this file
-   (C07_every_output_is_history_free, C07_repeat_same, C07_history_free).  Not operations of the machine: edismax,
-   slop searches, custom similarities. *)
+   (C07_every_output_is_history_free, C07_repeat_same, C07_history_free).  Not operations of the machine: slop searches,
+   custom similarities.  EDISMAX is not an operation either (what it does depends on what it reads): it is a dynamic program
+   over the machine's atomic actions (Conc/Conc_Dyn.v, Conc/Conc_Edismax.v); its purity is stated at the end of this file. *)
 From Coq Require Import ZArith.
 From SA Require Import Base.Prelude Index.Index Index.Index_Spec View.View View.Purity View.Purity_Proofs View.Purity_Gen View.Purity_Indexed View.Purity_Indexed2.
+From SA Require Import Solr.Edismax Conc.Conc Conc.Conc_Dyn Conc.Conc_Dyn_Proofs Conc.Conc_Edismax Conc.Conc_Dyn_Indexed.
 Open Scope N_scope.
 
 (* every output of every operation equals the history-free answer, in every state reachable from a pool
@@ -129,3 +131,35 @@ Print Assumptions C07_indexed_history_free.
 Print Assumptions C07_indexed_history_free_initial.
 Print Assumptions C07_repeat_same.
 Print Assumptions C07_history_free.
+
+(* ================= running EDISMAX (or any dynamic query program) is pure =================
+   One thread runs edismax ALONE (drun_thread: its atomic actions one after the other) on any pool reached by any
+   operation history of a non-empty indexed corpus.  (1) It returns Solr/Edismax.v's edismax on the immutable descriptors
+   of its field arrays: the caches and handle resets left by the history do not show.  (2) Running it changes no later
+   answer: in the pool p1 it leaves (doc-freq cache entries, filtered postings of ITS views, the parents' handles reset by
+   its selections), every later operation history is answered history-free, and every query that had an answer before
+   edismax ran returns exactly that answer afterwards. *)
+Theorem C07_edismax_is_history_free : forall docs bs ix cg ops outs p0 (e : ethread) o p1 env n,
+  wf_docs docs -> docs <> [] -> index false bs docs = AOk ix ->
+  run (init_pool ix cg) ops = (outs, p0) -> fields_at p0 (et_fields e) ->
+  drun_thread p0 [] (compile p0 [] (et_prog e)) = (o, p1, env, n) ->
+  o = et_answer e /\
+  forall ops2 outs2 p2, run p1 ops2 = (outs2, p2) ->
+    (forall k q r, nth_error ops2 k = Some q -> nth_error outs2 k = Some r ->
+       forall r0, pure_answer (snd (run p1 (firstn k ops2))) q = Some r0 -> r = r0) /\
+    (forall q, pure_answer p0 q <> None -> fst (step p2 q) = fst (step p0 q)).
+Proof. exact indexed_edismax_single_thread. Qed.
+Print Assumptions C07_edismax_is_history_free.
+
+(* the same for ANY dynamic program over queries (Conc/Conc_Dyn.v: qprog), with its history-free evaluation qprog_hf *)
+Theorem C07_dynamic_program_is_history_free : forall docs (T : Type) bs ix cg ops outs p0 (qp : qprog T) o p1 env n,
+  wf_docs docs -> docs <> [] -> index false bs docs = AOk ix ->
+  run (init_pool ix cg) ops = (outs, p0) ->
+  drun_thread p0 [] (compile p0 [] qp) = (o, p1, env, n) ->
+  o = qprog_hf p0 qp /\
+  forall ops2 outs2 p2, run p1 ops2 = (outs2, p2) ->
+    (forall k q r, nth_error ops2 k = Some q -> nth_error outs2 k = Some r ->
+       forall r0, pure_answer (snd (run p1 (firstn k ops2))) q = Some r0 -> r = r0) /\
+    (forall q, pure_answer p0 q <> None -> fst (step p2 q) = fst (step p0 q)).
+Proof. exact (@indexed_qprog_single_thread). Qed.
+Print Assumptions C07_dynamic_program_is_history_free.
